@@ -1,6 +1,7 @@
 package transactions
 
 import (
+	"errors"
 	"sync"
 
 	pkts "github.com/energomonitor/bisquitt/packets"
@@ -25,8 +26,21 @@ func NewTransactionStore() *TransactionStore {
 	}
 }
 
+// ErrSuperseded is the error of a transaction which was still in the store when
+// another transaction was stored under the same MessageID.
+var ErrSuperseded = errors.New("superseded by a transaction with the same MessageID")
+
 // Store inserts a new transaction to the store by the MessageID.
+//
+// A transaction still stored under the same MessageID is superseded (the peer
+// has abandoned or repeated the exchange): it is finished first. Transactions
+// remove themselves from the store by the MessageID when they finish, a
+// superseded transaction left alive would remove the new one later (e.g. when
+// it times out).
 func (ts *TransactionStore) Store(pktID uint16, transaction Transaction) {
+	if old, ok := ts.Get(pktID); ok && old != nil && old != transaction {
+		old.Fail(ErrSuperseded)
+	}
 	ts.Lock()
 	defer ts.Unlock()
 	ts.bypktID[pktID] = transaction
